@@ -257,6 +257,18 @@ func VerifC09Aliases() {
 	xs := x
 	attrs := map[string]*types.Item{":x": {S: &xs}}
 	aliases := map[string]string{"#a": target}
+	if nd.Choice("second-name", 2) == 1 {
+		// two names, each bound to any 2 bytes - to one another, for instance
+		nd.Reach("two-names")
+		aliases["#b"] = nd.StringN("target2", 2)
+		it := mk()
+		got, err := (&Language{}).Match(MatchInput{TableName: "t", Expression: "#a = :x OR #b = :x", ExpressionType: ExpressionTypeFilter, Item: it, Attributes: attrs, Aliases: aliases})
+		_, _ = got, err
+		uerr := (&Language{}).Update(UpdateInput{TableName: "t", Expression: "SET #a = #b", Item: mk(), Attributes: attrs, Aliases: aliases})
+		_ = uerr
+		nd.Reach("end")
+		return
+	}
 	li := &Language{}
 	// what the #name means is asserted only for plain targets: the library reads a target with a dot as a document
 	// path when no attribute has that name (its tests pin "#pos": ":nestedMap.lvl1.lvl2") and keeps values and
@@ -295,5 +307,36 @@ func VerifC09Aliases() {
 			nd.Assert(it[target] == nil, "C09-alias-remove-names-the-attribute")
 		}
 	}
+	nd.Reach("end")
+}
+
+// VerifC09Nested: a condition that is refused is refused wherever it stands: each malformed condition of a list
+// (a comparison used as an operand, chained comparators, a bare operand where a condition is expected) is wrapped in
+// NOT, parentheses, AND / OR with a well-formed companion that is true or false on the item - the whole text is
+// rejected every time.
+func VerifC09Nested() {
+	vRepeat = true
+	bad := []string{"n > :n = :x", "a = :x = :x", "( a = :x ) = :x", "a AND n > :n", "attribute_exists ( a ) = :x", "a = ( n > :n )", ":x AND a = :x", "a BETWEEN :x AND ( a = :x )", "a IN ( a = :x )"}
+	wraps := []string{"M", "NOT M", "NOT ( M )", "C AND NOT ( M )", "C OR NOT ( M )", "( NOT ( M ) )", "NOT ( C AND ( M ) )", "NOT NOT ( M )", "C AND ( M )", "( M ) OR C", "NOT ( ( M ) OR C )"}
+	m := bad[nd.Choice("malformed", len(bad))]
+	w := wraps[nd.Choice("wrapper", len(wraps))]
+	c := []string{"a = :x", "a <> :x"}[nd.Choice("companion", 2)] // true / false on the item of vC09Env
+	text := ""
+	for i := 0; i < len(w); i++ {
+		switch w[i] {
+		case 'M':
+			text += m
+		case 'C':
+			text += c
+		default:
+			text += string(w[i])
+		}
+	}
+	item, vals := vC09Env()
+	li := &Language{}
+	_, err := li.Match(MatchInput{TableName: "t", Expression: text, ExpressionType: ExpressionTypeConditional,
+		Item: vspec.ToItems(item, []string{"a", "n", "l", "m"}), Attributes: vspec.ToItems(vals, []string{":x", ":n"})})
+	nd.Assert(err != nil, "C09-malformed-condition-rejected-wherever-it-stands ["+w+"]")
+	nd.Assert(vspec.ParseCondition(text) == nil, "C09-nested-text-is-no-sentence")
 	nd.Reach("end")
 }
